@@ -181,6 +181,10 @@ int sqfs_meta_reader_read(sqfs_meta_reader_t *m, void *data, size_t size)
 	int ret;
 
 	while (size != 0) {
+		/* a failed seek can leave a read position behind the loaded data */
+		if (m->offset > m->data_used)
+			return SQFS_ERROR_OUT_OF_BOUNDS;
+
 		diff = m->data_used - m->offset;
 
 		if (diff == 0) {
